@@ -55,6 +55,8 @@ COMPONENTS = {
     # GHOST: the Boolean function a node denotes (assignment = set of true variables -> Bool); written only
     # by sidecar ghost code at the exit of the two __reset__ methods
     'b_den': z3.ArraySort(I, z3.ArraySort(SetH, B)),
+    # GHOST: the set of orderings (opaque values) a node's diagram respects
+    'b_resp': z3.ArraySort(I, z3.ArraySort(I, B)),
     # dictionaries keyed by node objects (result caches): domain and value (a node or an inner dictionary)
     'rd_dom': z3.ArraySort(I, SetR), 'rd_val': z3.ArraySort(I, z3.ArraySort(I, I)),
     'fld__next': z3.ArraySort(I, I),
